@@ -2077,7 +2077,7 @@ pub fn decode_mcase(prop: &str, u: &mut arbitrary::Unstructured) -> MCase {
                         (0..n)
                             .map(|_| match arb_below(u, 8) {
                                 0..=3 => PMsg::Record,
-                                4 => PMsg::BankSend { to: d_actor(u), amt: arb_below(u, 60) as u32 },
+                                4 => PMsg::BankSend { to: d_actor(u) + [0u8, 0, 0, 0, 0, 0, 100, 200][arb_below(u, 8)], amt: arb_below(u, 60) as u32 },
                                 5 => PMsg::ReExecute(d_ref(u)),
                                 6 => PMsg::ReVote(d_ref(u)),
                                 _ => PMsg::ReClose(d_ref(u)),
